@@ -266,8 +266,75 @@ def check(kind, proj):
     return bad
 
 
+RENAMED = {
+    "src/shapes.f90": ("module shapes\n  implicit none\n  type :: point\n    integer :: from_shapes\n  end type point\n  abstract interface\n    subroutine callback()\n    end subroutine callback\n"
+                       "  end interface\ncontains\n  subroutine draw()\n  end subroutine draw\nend module shapes\n"),
+    "src/solids.f90": ("module solids\n  use shapes, vertex => point, hook => callback, sketch => draw\n  implicit none\n  type :: point\n    integer :: from_solids\n  end type point\n"
+                       "  abstract interface\n    subroutine callback()\n    end subroutine callback\n  end interface\n  type(point) :: own\n  type(vertex) :: theirs\n"
+                       "  procedure(callback), pointer :: own_cb\ncontains\n  subroutine draw()\n  end subroutine draw\n  subroutine use_them()\n    call draw()\n    call sketch()\n"
+                       "  end subroutine use_them\nend module solids\n"),
+    "src/consumer.f90": "module consumer\n  use shapes, vertex => point\n  implicit none\n  type(point) :: nothing_visible\n  type(vertex) :: renamed\nend module consumer\n",
+}
+SAME_NAME_SUBMODULES = {
+    "src/m1.f90": "module m1\n  implicit none\n  interface\n    module subroutine a1()\n    end subroutine a1\n  end interface\nend module m1\n",
+    "src/m2.f90": "module m2\n  implicit none\n  interface\n    module subroutine a2()\n    end subroutine a2\n  end interface\nend module m2\n",
+    "src/s1.f90": "submodule (m1) impl\n  implicit none\n  type :: token\n    integer :: from_m1\n  end type token\nend submodule impl\n",
+    "src/s2.f90": "submodule (m2) impl\n  implicit none\n  type :: token\n    integer :: from_m2\n  end type token\nend submodule impl\n",
+    "src/s3.f90": "submodule (m2:impl) child\n  implicit none\ncontains\n  module subroutine a2()\n    type(token) :: t\n  end subroutine a2\nend submodule child\n",
+}
+
+
+def renamed_away():
+    """`use m, local => orig` without ONLY: orig is not a name of m in this scope any more - the scope's own `orig` is the one references see, and where there is none the name is undeclared"""
+    proj = realrun.build_project(RENAMED, proc_internals=True, display=["public", "private", "protected"])
+    mods = {m.name.lower(): m for m in proj.modules}
+    sh, so, co = mods["shapes"], mods["solids"], mods["consumer"]
+    bad = []
+    v = {x.name: x for x in so.variables}
+    if v["own"].proto[0] is not _find(so.types, "point"):
+        bad.append("solids: type(point) does not resolve to solids' own type point (shapes' point was renamed to vertex)")
+    if v["theirs"].proto[0] is not _find(sh.types, "point"):
+        bad.append("solids: type(vertex) does not resolve to shapes' point")
+    if v["own_cb"].proto[0] is not _find(so.absinterfaces, "callback"):
+        bad.append("solids: procedure(callback) does not resolve to solids' own abstract interface")
+    ut = _find(so.subroutines, "use_them")
+    got = [c if isinstance(c, str) else (c.name, c.parent.name) for c in ut.calls]
+    if got != [("draw", "solids"), ("draw", "shapes")]:
+        bad.append(f"solids::use_them: calls resolve to {got}, expected draw of solids then draw of shapes (as sketch)")
+    cv = {x.name: x for x in co.variables}
+    if not isinstance(cv["nothing_visible"].proto[0], str):
+        bad.append("consumer: type(point) resolves although shapes' point is only visible as vertex")
+    if cv["renamed"].proto[0] is not _find(sh.types, "point"):
+        bad.append("consumer: type(vertex) does not resolve to shapes' point")
+    return bad
+
+
+def same_name_submodules():
+    """submodule names are unique per ancestor module only: `submodule (m2:impl) child` descends from m2's impl"""
+    proj = realrun.build_project(SAME_NAME_SUBMODULES, proc_internals=True, display=["public", "private", "protected"])
+    subs = {(s.name.lower(), getattr(s.ancestor_module, "name", s.ancestor_module).lower()): s for s in proj.submodules}
+    child, impl2 = subs[("child", "m2")], subs[("impl", "m2")]
+    bad = []
+    if child.parent_submodule is not impl2:
+        par = child.parent_submodule
+        bad.append(f"child's parent submodule is impl of {getattr(getattr(par, 'ancestor_module', None), 'name', par)}, expected impl of m2")
+    procs = list(getattr(child, "modsubroutines", [])) + list(child.subroutines)
+    t = procs[0].variables[0]
+    if t.proto[0] is not _find(impl2.types, "token"):
+        bad.append("type(token) in child::a2 does not resolve to the type of its parent submodule m2:impl")
+    return bad
+
+
 def search():
     from bounded import c06
+    bad = renamed_away()
+    if bad:
+        return {"confirmed": True, "input": {"files": RENAMED}, "actual": bad, "expected": "a renamed entity is visible under its local name only; the scope's own declarations keep their names",
+                "how": "bounded search on the real pipeline: USE with renames and no ONLY list"}
+    bad = same_name_submodules()
+    if bad:
+        return {"confirmed": True, "input": {"files": SAME_NAME_SUBMODULES}, "actual": bad, "expected": "the parent of m2:impl's child is the submodule impl of m2",
+                "how": "bounded search on the real pipeline: two submodules named impl under different modules"}
     deep = c06.deep_use()
     if deep:
         return {"confirmed": True, "input": {"files": c06.DEEP}, "actual": deep, "expected": "names re-exported by a used module resolve wherever the USE statement is nested",
@@ -282,4 +349,4 @@ def search():
 
 
 def count_cases():
-    return sum(1 for _ in cases()) + 1
+    return sum(1 for _ in cases()) + 3
